@@ -300,6 +300,23 @@ def make_world(rng):
                         x["$deref"]["main_reg"] = [{"$or": [x["$deref"]["main_reg"], "%xmm7"]}]
                 add("deref", "or_in_field", {"pattern": [{mn: orr}]}, li)
 
+    # ---- names that are regular-expression text (what the DSL passes through to the engine), incl. constructs
+    #      whose meaning depends on engine-level settings
+    if listings:
+        li = rng.choice(listings)
+        for vname, pat in (("set_with_bracket", [{"mov": ["[[]%r[a-z0-9]+"]}]), ("alt_group", ["(?:push|pop)"]), ("class", ["mo[v]", {"r[e]t": {"times": {"min": 0, "max": 1}}}]),
+                           ("set_ops_text", [{"mov": ["[%a-z0-9--q]+"]}]), ("anchors", [{"push": ["%r[^,|]{2}"]}])):
+            add("regexsyntax", vname, {"pattern": pat}, li)
+        # very deep nesting (a rule generator could produce it): close to the interpreter's recursion limit
+        deep = "mov"
+        for _ in range(rng.choice([60, 110, 150])):
+            deep = {"$or": [deep]}
+        add("deep", "plain_or", {"pattern": [deep]}, li)
+        body = "push"
+        for _ in range(40):
+            body = {"$and": [body]}
+        add("deep", "macro_body", {"macros": [{"name": "@deep", "pattern": [body]}], "pattern": ["@deep"]}, li)
+
     # ---- matches that are empty, and matches that are very long (several kB of text in one element)
     if listings:
         li = rng.choice(listings)
@@ -378,6 +395,8 @@ def _match_op(rng, entry, inputs_asm, inputs_bin, mode=None, input_override=None
     op = {"op": "match", "rule": entry["rel"], "input": inp, "type": typ, "ret": ret, "search": search, "only_addr": only,
           "macros": list(entry["macros"]) if entry.get("macros") else None,
           "_tag": f"{entry['family']}:{entry['variant']}:{typ}:{ret}/{search}{'/addr' if only else ''}"}
+    if rng.random() < 0.3:
+        op["gap"] = rng.choice([0.2, 2, 30, 58, 59, 59.5, 61, 120, 3600])  # simulated seconds that pass before this operation
     if rng.random() < 0.5:
         op["hold_object"] = True  # the caller keeps the MasterOfPuppets object in a variable until the next one replaces it
     return op
@@ -425,10 +444,11 @@ def make_history(rng, world, with_faults):
         if ops and r < 0.12:
             prev = [o for o in ops if o["op"] == "match"]
             if prev:
-                if rng.random() < 0.35 and ops[-1]["op"] == "match" and not ops[-1].get("faults") and not ops[-1].get("compile_only"):
+                if rng.random() < 0.35 and ops[-1]["op"] == "match" and not ops[-1].get("compile_only"):
                     # match again on the object the caller still holds (immediately: nothing else ran in between)
                     ops[-1]["hold_object"] = True
                     again = copy.deepcopy(ops[-1])
+                    again.pop("faults", None)  # whatever made the first attempt fail is gone: the caller simply tries again
                     again["rematch"] = True
                     again["_tag"] = "rematch:" + again["_tag"]
                     ops.append(again)
